@@ -385,6 +385,11 @@ class FakeWebSocket:
         self.stall_until = 0.0
         self.fail_send = None
         self.on_frame = None
+        self.link = None
+        self.delivered = 0  # messages handed to the peer's reader
+        self.cut_at = None  # the link dies instead of delivering message number cut_at of this direction
+        self.cut_mode = 'eof'
+        self.dead = False
 
     def __aiter__(self):
         return self
@@ -392,6 +397,11 @@ class FakeWebSocket:
     async def __anext__(self):
         item = await self.inbox.get()
         if item is _CLOSE:
+            if not self.closed:
+                # aiohttp answers the peer's close (or the end of the stream underneath) by closing its own side
+                self.closed = True
+                self.world.rec('conn', what='ws_close', owner=self.owner, auto=True)
+                self._push(_CLOSE)
             raise StopAsyncIteration
         if isinstance(item, Exception):
             raise item
@@ -427,7 +437,7 @@ class FakeWebSocket:
                 await asyncio.sleep(pol.drain_delay)
 
     def _push(self, item):
-        if self.silent:
+        if self.silent or self.dead:
             return
         lat = self.pol.latency + (self.rng.random() * self.pol.jitter if self.pol.jitter else 0.0)
         ready = max(self.last_ready, self.loop.time() + lat)
@@ -446,8 +456,16 @@ class FakeWebSocket:
     def _pump(self):
         self.pump_handle = None
         now = self.loop.time()
+        if self.dead:
+            self.outq.clear()
+            return
         if self.outq and self.outq[0][0] <= now:
             _, item = self.outq.popleft()
+            if self.cut_at is not None and self.delivered >= self.cut_at and self.link is not None:
+                self.link.fire_cut(self)
+                if self.dead:
+                    return
+            self.delivered += 1
             self.peer.inbox.put_nowait(item)
             self.world.stats['chunks'] = self.world.stats.get('chunks', 0) + 1
         if self.outq:
@@ -488,6 +506,44 @@ class MessageLink:
         self.server_ws = FakeWebSocket(world, 'server', s2c_policy)
         self.client_ws.peer = self.server_ws
         self.server_ws.peer = self.client_ws
+        self.client_ws.link = self.server_ws.link = self
+        self.cut_fired = None
+
+    def ws_of(self, direction):
+        return self.client_ws if direction == 'c2s' else self.server_ws
+
+    def set_cut(self, direction, offset, mode):
+        """The connection is lost instead of delivering message number `offset` of `direction`."""
+        ws = self.ws_of(direction)
+        ws.cut_at = offset
+        ws.cut_mode = mode
+
+    def fire_cut(self, ws):
+        if self.cut_fired is not None:
+            return
+        self.cut_fired = (ws.name, ws.delivered, ws.cut_mode)
+        self.world.rec('fault', what='cut', dir=ws.name, offset=ws.delivered, mode=ws.cut_mode)
+        self.world.fault_fired('cut_' + ws.cut_mode)
+        if ws.cut_mode == 'reset':
+            self.reset()
+        else:
+            # this direction ends: its reader sees the close, nothing sent later arrives
+            ws.dead = True
+            ws.outq.clear()
+            ws.peer.inbox.put_nowait(_CLOSE)
+
+    def reset(self):
+        """The connection underneath both websockets is gone.  As with aiohttp's websocket objects the reader does
+        not raise: it may yield one message of type ERROR, then the iteration simply ends; sends raise; messages in
+        flight are lost."""
+        import aiohttp
+        for ws in (self.client_ws, self.server_ws):
+            ws.dead = True
+            ws.outq.clear()
+            ws.fail_send = ConnectionResetError('Cannot write to closing transport')
+            if ws.rng.random() < 0.5:
+                ws.inbox.put_nowait(_Msg(aiohttp.WSMsgType.ERROR, ConnectionResetError('websocket connection lost')))
+            ws.inbox.put_nowait(_CLOSE)
 
     def idle(self):
         return self.client_ws.idle() and self.server_ws.idle()
